@@ -226,6 +226,11 @@ func (_this *arrayEncoderEngine) addBooleanArrayData(data []byte) {
 }
 
 func (_this *arrayEncoderEngine) AddArrayData(data []byte) {
+	if len(data) == 0 {
+		// An empty data event carries nothing and must not leave a trace in the output
+		return
+	}
+
 	if _this.arrayElementBitWidth == 1 {
 		_this.addBooleanArrayData(data)
 		return
